@@ -83,7 +83,7 @@ def cbmc_cmd(ob, scratch, extra=()):
         src.append(s if os.path.isabs(s) else os.path.join(scratch, s))
     cmd = ["cbmc"] + src + common_includes(scratch) + COMMON_DEFS + ob.defs
     cmd += ["--unwind", str(ob.unwind), "--unwinding-assertions", "--drop-unused-functions",
-            "--no-malloc-may-fail", "--json-ui", "--verbosity", "4"]
+            "--no-malloc-may-fail", "--json-ui", "--verbosity", "8"]
     if ob.unwindset:
         cmd += ["--unwindset", ",".join(ob.unwindset)]
     if ob.checks == "none":
